@@ -13,6 +13,8 @@ Inductive sop :=
       (* act 0 = none, 1 = put val, 2 = delete; tm 0 = no timer; obs = KeyState handed to the handler BEFORE the event *)
 | SWm (t : N) (fired : list (N * N))                       (* (key, ts) of the TimerExpired events delivered *)
 | SRescale (n : N) (recorded : list (kgrange * ckdoc)) (asg : list (list N)) (layout_ok : bool) (probes : list (list probe))
+| SRelease (asked deleted : N)      (* an operator let go of the old tables it shares with its neighbours: how many shared
+                                       files it asked about, how many of them were deleted although a neighbour lists them *)
 | SSave (c : sp_case).                                     (* C14: observations of a savepoint taken / restored here *)
 
 Inductive case :=
@@ -152,6 +154,7 @@ Definition step (count : N) (rs : rstate * list N) (o : sop) : rstate * list N :
       let e2 := if layout_ok && negb here then model_rescale count n recorded probes else [] in
       let cls := r_class r || here in
       (mkR (r_st r) (r_tm r) 0 n cls, errs ++ e1 ++ e2)
+  | SRelease asked deleted => (r, errs ++ (if deleted =? 0 then [] else [102]))
   | SSave c => (r, errs ++ check_sp c)
   end.
 
